@@ -4,6 +4,7 @@
 -/
 import UnytModel.DriverBase
 import UnytModel.NumLitC02
+import UnytModel.Generated.C02NumPipeline
 import UnytModel.Parse
 
 namespace Unyt
@@ -25,7 +26,7 @@ def opsC02 : Handler := fun st fields =>
   -- a NUMBER token: auto_number's class, its value, and the tokenizer model's value
   | ["c02.numlit", s] =>
     let cs := s.toList
-    some (st, s!"ok\t{(autoNumberClass cs).str}\t{optRatStr (tokenValue cs)}\t{optRatStr (parseTokenValue cs)}")
+    some (st, s!"ok\t{(autoNumberClass cs).str}\t{optRatStr (tokenValue cs)}\t{optRatStr (parseTokenValue cs)}\t{if Generated.c02AutoNumberIsFloat cs then "float" else "integer"}")
   -- Unit(str) against registry 0: parse (C20's model), then the table evaluation of C02
   | ["c02.unitstr", s] =>
     match Parse.parseUnit s with
